@@ -152,6 +152,41 @@ fn implicit_subject(rng: &mut Rng) -> String {
     s
 }
 
+/// An ill typed program whose diagnostics have to *choose* what to show: a projection of (or a
+/// match on) a field that a wide record does not have, a record literal missing fields of the
+/// expected type, an application with too many arguments on a wide record ... (the message lists
+/// "similar" fields, elides the rest, and prints the record type several times)
+fn wide_record_subject(rng: &mut Rng) -> String {
+    let pool = ["alpha", "beta", "gamma", "delta", "epsilon", "zeta", "eta", "theta", "iota", "kappa", "lambda", "mu", "nu", "xi", "omicron", "pi", "rho", "sigma", "tau", "upsilon"];
+    let n = 4 + rng.below(7);
+    let mut names: Vec<&str> = Vec::new();
+    while names.len() < n {
+        let c = *rng.pick(&pool);
+        if !names.contains(&c) {
+            names.push(c);
+        }
+    }
+    let value = |rng: &mut Rng, k: usize| match rng.below(4) {
+        0 => format!("{}", k),
+        1 => format!("\"s{}\"", k),
+        2 => format!("{}.5", k),
+        _ => format!("[{}]", k),
+    };
+    let fields: Vec<String> = names.iter().enumerate().map(|(k, f)| format!("{} = {}", f, value(rng, k))).collect();
+    let missing = match rng.below(3) {
+        0 => "zzz".to_string(),
+        1 => format!("{}x", names[rng.below(n)]),
+        _ => "q".to_string(),
+    };
+    let record = format!("{{ {} }}", fields.join(", "));
+    match rng.below(4) {
+        0 => format!("let r = {}\nr.{}\n", record, missing),
+        1 => format!("let r = {}\nlet {{ {} }} = r\n{}\n", record, missing, missing),
+        2 => format!("let f x : {{ {} : Int, {} : Int }} -> Int = x.{}\nf {}\n", missing, names[0], missing, record),
+        _ => format!("let r = {}\nmatch r with\n| {{ {}, {} }} -> 1\n", record, names[0], missing),
+    }
+}
+
 fn history_item(rng: &mut Rng, i: usize) -> Value {
     let ty = {
         let mut g = Gen::new(rng, 4);
@@ -186,7 +221,7 @@ impl Engine for C16 {
 
     fn info(&self) -> EngineInfo {
         EngineInfo {
-            rule: "one run = a generated subject (well typed program, or an ill typed / unparsable mutant of one, optionally importing 1-2 generated inline modules; in 1 of 5 runs a program decided by implicit-argument resolution: implicit bindings with random names in random order, derived instances, queries resolving to one candidate, several (ambiguity diagnostics listing the candidates) or none) whose observation = (rendered value, type text, Error::emit_string text) is taken (a) on a fresh VM, (b) on a VM that first executed a generated history of 0-20 unrelated items (expressions, loaded modules, ill typed programs, failing programs; disjoint names), (c) after the same history in a tape-chosen permutation, (d) on a second fresh VM of the same process, (e) on a child thread, (f) under a forced collection schedule, (g) after seeded heap padding (shifts every address), (i) twice on a VM built with a task spawner whose import tasks are polled by the simulator in tape-chosen order (two completion orders), (h) in 1 of 6 runs in a freshly spawned process (new hasher keys, new address space). All observations must be byte-identical. Non-trivial = the history had at least 3 items or the subject produced diagnostics; distinct = distinct workload hash.",
+            rule: "one run = a generated subject (well typed program, or an ill typed / unparsable mutant of one, optionally importing 1-2 generated inline modules; in 1 of 5 runs a program decided by implicit-argument resolution: implicit bindings with random names in random order, derived instances, queries resolving to one candidate, several (ambiguity diagnostics listing the candidates) or none; in 1 of 8 an ill typed use of a wide record (4-10 fields with random names: missing field in a projection, pattern, expected type) whose diagnostics list similar fields and elide the rest) whose observation = (rendered value, type text, Error::emit_string text) is taken (a) on a fresh VM, (b) on a VM that first executed a generated history of 0-20 unrelated items (expressions, loaded modules, ill typed programs, failing programs; disjoint names), (c) after the same history in a tape-chosen permutation, (d) on a second fresh VM of the same process, (e) on a child thread, (f) under a forced collection schedule, (g) after seeded heap padding (shifts every address), (i) twice on a VM built with a task spawner whose import tasks are polled by the simulator in tape-chosen order (two completion orders), (h) in 1 of 6 runs in a freshly spawned process (new hasher keys, new address space). All observations must be byte-identical. Non-trivial = the history had at least 3 items or the subject produced diagnostics; distinct = distinct workload hash.",
             real: vec!["symbol interning, type variable naming in rendered types and diagnostics, salsa memo tables, code map offsets, Fnv/ordered maps in the compiler, VM evaluation, Error::emit_string rendering"],
             stubbed: vec!["unrelated earlier work = generated history", "address perturbation = seeded padding allocations"],
             not_exercised: vec!["std.random, IO", "different machines / Rust versions"],
@@ -237,6 +272,8 @@ impl Engine for C16 {
         }
         if rng.chance(1, 5) {
             subject = implicit_subject(rng);
+        } else if rng.chance(1, 6) {
+            subject = wide_record_subject(rng);
         }
         let nh = *rng.pick(&[0usize, 1, 3, 6, 12, 20]);
         let history: Vec<Value> = (0..nh).map(|i| history_item(rng, i)).collect();
